@@ -387,3 +387,85 @@ func SilenceKlog() {
 	fs.Set("alsologtostderr", "false")
 	fs.Set("stderrthreshold", "FATAL")
 }
+
+// enumProp is a finite, completely enumerated set of cases (fault matrices). Every tier runs all of
+// them; in the thorough tier the cases are split over the shards.
+type enumProp[C any] struct {
+	o     Opts
+	cases func() []C
+	check func(*testing.T, C) Verdict
+}
+
+// DefineEnum registers an exhaustively enumerated sub-property. Opts.Quick / Thorough are ignored.
+func DefineEnum[C any](o Opts, cases func() []C, check func(*testing.T, C) Verdict) Prop {
+	if o.MaxSample == 0 {
+		o.MaxSample = 1500
+	}
+	return &enumProp[C]{o: o, cases: cases, check: check}
+}
+
+func (p *enumProp[C]) Name() string { return p.o.Name }
+
+func (p *enumProp[C]) run(t *testing.T, e *env) {
+	all := p.cases()
+	st := &propStats{Name: p.o.Name, Rule: p.o.Rule, Classes: map[string]int{}, Excluded: map[string]int{}, fps: map[uint64]struct{}{}, Requested: len(all)}
+	e.mu.Lock()
+	e.stats = append(e.stats, st)
+	e.mu.Unlock()
+	nshards, _ := strconv.Atoi(getenv("VERIF_NSHARDS", "1"))
+	if nshards < 1 {
+		nshards = 1
+	}
+	failPath := filepath.Join(e.out, fmt.Sprintf("fail-%s-%d.json", p.o.Name, e.shard))
+	os.Remove(failPath)
+	start := time.Now()
+	t.Run(p.o.Name, func(t *testing.T) {
+		failed := 0
+		for i, c := range all {
+			if i%nshards != e.shard%nshards {
+				continue
+			}
+			v := safeCheck(t, p.check, c)
+			st.Evaluations++
+			for _, cl := range v.Classes {
+				st.Classes[cl]++
+			}
+			raw, _ := json.Marshal(c)
+			sum := sha256.Sum256(raw)
+			fp := binary.BigEndian.Uint64(sum[:8])
+			if _, seen := st.fps[fp]; !seen && v.NonTrivial {
+				st.fps[fp] = struct{}{}
+				st.NonTrivial++
+				if len(st.Samples) < 3 {
+					st.Samples = append(st.Samples, json.RawMessage(raw))
+				}
+			}
+			vs := e.triage(st, v.Violations)
+			if len(vs) > 0 {
+				st.Violations++
+				failed++
+				if failed == 1 {
+					e.writeCase(failPath, p.o.Name, 0, c, vs)
+				}
+				if failed <= 10 {
+					for _, x := range vs {
+						t.Errorf("case %d: [%s] %s", i, x.Sig, x.Msg)
+					}
+				}
+			}
+		}
+	})
+	st.WallS = time.Since(start).Seconds()
+	if _, err := os.Stat(failPath); err == nil {
+		fmt.Printf("VERIF-FAIL prop=%s file=%s\n", p.o.Name, failPath)
+	}
+}
+
+func (p *enumProp[C]) replay(t *testing.T, e *env, raw json.RawMessage) []Violation {
+	var c C
+	if err := json.Unmarshal(raw, &c); err != nil {
+		t.Fatalf("replay: cannot decode case for %s: %v", p.o.Name, err)
+	}
+	v := safeCheck(t, p.check, c)
+	return e.triage(nil, v.Violations)
+}
